@@ -192,9 +192,9 @@ package nitro
 // ---------------------------------------------------------------------------
 
 //@ ufun kc(a ref, b ref) int
-//@ axiom kc-refl: forall a ref :: kc(a, a) == 0
-//@ axiom kc-antisym: forall a, b ref :: (kc(a, b) < 0 <==> kc(b, a) > 0) && (kc(a, b) == 0 <==> kc(b, a) == 0)
-//@ axiom kc-trans: forall a, b, c ref :: (kc(a, b) <= 0 && kc(b, c) <= 0 ==> kc(a, c) <= 0) && (kc(a, b) < 0 && kc(b, c) <= 0 ==> kc(a, c) < 0) && (kc(a, b) <= 0 && kc(b, c) < 0 ==> kc(a, c) < 0)
+//@ axiom kc-refl: forall a ref {kc(a, a)} :: kc(a, a) == 0
+//@ axiom kc-antisym: forall a, b ref {kc(a, b)} :: (kc(a, b) < 0 <==> kc(b, a) > 0) && (kc(a, b) == 0 <==> kc(b, a) == 0)
+//@ axiom kc-trans: forall a, b, c ref {kc(a, b), kc(b, c)} :: (kc(a, b) <= 0 && kc(b, c) <= 0 ==> kc(a, c) <= 0) && (kc(a, b) < 0 && kc(b, c) <= 0 ==> kc(a, c) < 0) && (kc(a, b) <= 0 && kc(b, c) < 0 ==> kc(a, c) < 0)
 
 //@ callback-type nitro.KeyCompare(fn ref, a []byte, b []byte) r int
 //@ pure-call
@@ -226,16 +226,16 @@ package nitro
 //@ nopanic
 
 // Configuration: the three comparators stored in the instance are the closures built by SetKeyComparator.
-//@ pure isInsCmp(f ref) bool = forall a, b ref :: cmpf(f, a, b) == insc(cast(*Item, a), cast(*Item, b))
-//@ pure isIterCmp(f ref) bool = forall a, b ref :: cmpf(f, a, b) == kc(a, b)
-//@ pure isExistCmp(f ref) bool = forall a, b ref :: cmpf(f, a, b) == exc(cast(*Item, a), cast(*Item, b))
+//@ pure isInsCmp(f ref) bool = forall a, b ref {cmpf(f, a, b)} :: cmpf(f, a, b) == insc(cast(*Item, a), cast(*Item, b))
+//@ pure isIterCmp(f ref) bool = forall a, b ref {cmpf(f, a, b)} :: cmpf(f, a, b) == kc(a, b)
+//@ pure isExistCmp(f ref) bool = forall a, b ref {cmpf(f, a, b)} :: cmpf(f, a, b) == exc(cast(*Item, a), cast(*Item, b))
 //@ pure cfgOK(m *Nitro) bool = isInsCmp(m.insCmp) && isIterCmp(m.iterCmp) && isExistCmp(m.existCmp)
 
 //@ pure itmAt(m *Nitro, i int) *Item = cast(*Item, m.store.phys[i].itm)
-//@ pure wfItems(m *Nitro) bool = forall i int :: 0 <= i && i < m.store.n ==> m.store.phys[i].itm != nil && m.store.phys[i].itm != skiplist.MaxItem
-//@ pure wfSorted(m *Nitro) bool = forall i, j int :: 0 <= i && i < j && j < m.store.n ==> insc(itmAt(m, i), itmAt(m, j)) < 0
-//@ pure wfVersions(m *Nitro) bool = forall i int :: 0 <= i && i + 1 < m.store.n && kc(itmAt(m, i), itmAt(m, i + 1)) == 0 ==>
-//@     itmAt(m, i).deadSn != 0 && itmAt(m, i).deadSn <= itmAt(m, i + 1).bornSn
+//@ pure wfItems(m *Nitro) bool = forall i int {m.store.phys[i]} :: 0 <= i && i < m.store.n ==> m.store.phys[i].itm != nil && m.store.phys[i].itm != skiplist.MaxItem
+//@ pure wfSorted(m *Nitro) bool = forall i, j int {m.store.phys[i], m.store.phys[j]} :: 0 <= i && i < j && j < m.store.n ==> insc(itmAt(m, i), itmAt(m, j)) < 0
+//@ pure wfVersions(m *Nitro) bool = forall i, j int {m.store.phys[i], m.store.phys[j]} :: 0 <= i && i < j && j < m.store.n && kc(itmAt(m, i), itmAt(m, j)) == 0 ==>
+//@     itmAt(m, i).deadSn != 0 && itmAt(m, i).deadSn <= itmAt(m, j).bornSn
 //@ pure wfStore(m *Nitro) bool = m != nil && m.store != nil && wfChain(m.store) && m.store.n < 1099511627776 && cfgOK(m) && wfItems(m) && wfSorted(m) && wfVersions(m)
 
 // A nitro iterator wraps a skiplist iterator over the store with the key-only comparator.
@@ -250,13 +250,17 @@ package nitro
 //@ modifies it.count, it.iter.valid, it.iter.prev, it.iter.curr, it.iter.ix, it.iter.count, it.iter.deleted
 //@ loop 1 invariant wfIter(it) && positioned(it.iter) && old(it.iter.ix) <= it.iter.ix && it.iter.smrInterval == 18446744073709551615
 //@ loop 1 invariant it.iter.count == old(it.iter.count) + (it.iter.ix - old(it.iter.ix)) && it.count == old(it.count) + (it.iter.ix - old(it.iter.ix))
-//@ loop 1 invariant forall j int :: old(it.iter.ix) <= j && j < it.iter.ix ==> !visAt(it, j)
+//@ loop 1 invariant forall j int {it.snap.db.store.phys[j]} :: old(it.iter.ix) <= j && j < it.iter.ix ==> !visAt(it, j)
 //@ loop 1 decreases it.snap.db.store.n - it.iter.ix
 //@ ensures[positioned] wfIter(it) && positioned(it.iter)
 //@ ensures[visible] it.iter.ix == it.snap.db.store.n || visAt(it, it.iter.ix)
-//@ ensures[skipped] old(it.iter.ix) <= it.iter.ix && (forall j int :: old(it.iter.ix) <= j && j < it.iter.ix ==> !visAt(it, j))
+//@ ensures[skipped] old(it.iter.ix) <= it.iter.ix && (forall j int {it.snap.db.store.phys[j]} :: old(it.iter.ix) <= j && j < it.iter.ix ==> !visAt(it, j))
 //@ ensures[count] it.count == old(it.count) + (it.iter.ix - old(it.iter.ix)) && it.iter.count == old(it.iter.count) + (it.iter.ix - old(it.iter.ix))
 //@ nopanic
+
+// a copy of the bytes of an existing item has the same key as that item (keys depend on the bytes only)
+//@ pure sameKeyAsView(x *Item, data []byte) bool = forall src ref {cast(*Item, src).dataLen} :: src != nil && ptr(data) == src + 12 && len(data) == cast(*Item, src).dataLen ==>
+//@     (forall y ref {kc(x, y)} :: kc(x, y) == kc(src, y)) && (forall y ref {kc(y, x)} :: kc(y, x) == kc(y, src))
 
 //@ func (*Nitro).newItem
 //@ trusted allocates an item (allocItem) and copies the bytes; the new item's key is the given byte string
@@ -264,17 +268,18 @@ package nitro
 //@ ensures itm != nil && itm >= old(brk()) && itm < 72057594037927936 && itm.dataLen == len(data) && itm.bornSn == 0 && itm.deadSn == 0
 //@ ensures forall i int :: 0 <= i && i < len(data) ==> mem8(itm + 12 + i) == old(data[i])
 //@ ensures forall a int :: a < old(brk()) ==> mem8(a) == old(mem8(a))
+//@ ensures sameKeyAsView(itm, data)
 
 //@ func (*Nitro).ptrToItem
 //@ trusted copies an item (header and bytes) into a Go-managed block; the copy has the same key
 //@ modifies heap($alive), heap($brk), mem(uint8)
 //@ ensures result != nil && result >= old(brk()) && result < 72057594037927936
 //@ ensures result.dataLen == cast(*Item, itmPtr).dataLen && result.bornSn == cast(*Item, itmPtr).bornSn && result.deadSn == cast(*Item, itmPtr).deadSn
-//@ ensures forall y ref :: kc(result, y) == kc(itmPtr, y) && kc(y, result) == kc(y, itmPtr)
+//@ ensures (forall y ref {kc(result, y)} :: kc(result, y) == kc(itmPtr, y)) && (forall y ref {kc(y, result)} :: kc(y, result) == kc(y, itmPtr))
 //@ ensures forall a int :: a < old(brk()) ==> mem8(a) == old(mem8(a))
 
 //@ pure firstVisibleFrom(it *Iterator, lo int) bool = lo <= it.iter.ix && it.iter.ix <= it.snap.db.store.n &&
-//@     (it.iter.ix == it.snap.db.store.n || visAt(it, it.iter.ix)) && (forall j int :: lo <= j && j < it.iter.ix ==> !visAt(it, j))
+//@     (it.iter.ix == it.snap.db.store.n || visAt(it, it.iter.ix)) && (forall j int {it.snap.db.store.phys[j]} :: lo <= j && j < it.iter.ix ==> !visAt(it, j))
 //@ pure fresh61(it *Iterator) bool = it.iter.count < 2305843009213693952 && it.iter.smrInterval == 18446744073709551615
 
 //@ func (*Iterator).SeekFirst
@@ -283,6 +288,7 @@ package nitro
 //@ modifies it.count, it.iter.valid, it.iter.prev, it.iter.curr, it.iter.ix, it.iter.count, it.iter.deleted
 //@ ensures[positioned] wfIter(it) && positioned(it.iter)
 //@ ensures[first-visible] firstVisibleFrom(it, 0)
+//@ ensures[steps] it.iter.count - it.iter.ix == old(it.iter.count) && it.iter.smrInterval == 18446744073709551615
 //@ nopanic
 
 //@ func (*Iterator).Valid
@@ -325,10 +331,13 @@ package nitro
 //@ ghost-exit it.probe := itm
 //@ ensures[probe] it.probe != nil && it.probe.dataLen == len(bs) && (forall i int :: 0 <= i && i < len(bs) ==> mem8(it.probe + 12 + i) == old(bs[i]))
 //@ ensures[visible] it.iter.ix == it.snap.db.store.n || (visAt(it, it.iter.ix) && kc(itmAt(it.snap.db, it.iter.ix), it.probe) >= 0)
-//@ ensures[smallest] forall j int :: 0 <= j && j < it.iter.ix ==> kc(itmAt(it.snap.db, j), it.probe) < 0 || !visAt(it, j)
+//@ ensures[smallest] forall j int {it.snap.db.store.phys[j]} :: 0 <= j && j < it.iter.ix ==> kc(itmAt(it.snap.db, j), it.probe) < 0 || !visAt(it, j)
+//@ ensures[probe-key] sameKeyAsView(it.probe, bs)
+//@ ensures[steps] it.iter.count - it.iter.ix <= old(it.iter.count) && it.iter.smrInterval == 18446744073709551615
 //@ nopanic
 
 //@ pure bufOK(it *Iterator) bool = it.buf != nil && len(it.buf.preds) >= 1 && len(it.buf.succs) >= 1
+//@ pure bufAbove(it *Iterator, b int) bool = ptr(it.buf.preds) >= b && ptr(it.buf.succs) >= b
 
 //@ func (*Iterator).Refresh
 //@ props C09 C01 C10
@@ -340,7 +349,7 @@ package nitro
 //@ modifies it.iter, it.count, it.iter.valid, it.buf.pos, elems(it.buf.preds), elems(it.buf.succs), it.snap.db.store.Stats.readConflicts, heap($alive), heap($brk), mem(uint8)
 //@ ensures[wf] wfIter(it) && positioned(it.iter) && bufOK(it)
 //@ ensures[pos] it.iter.ix == old(it.iter.ix)
-//@ ensures[steps] it.iter.count < 1099511627776 + 2 || it.iter.count == old(it.iter.count)
+//@ ensures[steps] (it.iter.count - it.iter.ix <= 0 || it.iter.count == old(it.iter.count)) && it.iter.smrInterval == 18446744073709551615
 //@ nopanic
 
 //@ func (*Iterator).Next
@@ -351,4 +360,73 @@ package nitro
 //@ modifies it.buf.pos, elems(it.buf.preds), elems(it.buf.succs), it.snap.db.store.Stats.readConflicts, heap($alive), heap($brk), mem(uint8)
 //@ ensures[wf] wfIter(it) && positioned(it.iter) && bufOK(it)
 //@ ensures[next-visible] firstVisibleFrom(it, old(it.iter.ix) + 1)
+//@ ensures[steps] (it.iter.count - it.iter.ix <= 0 || it.iter.count - it.iter.ix == old(it.iter.count - it.iter.ix)) && it.iter.smrInterval == 18446744073709551615
+//@ nopanic
+
+// ---------------------------------------------------------------------------
+// C10: Visitor. Ghost log of callback invocations: cbItem[k], cbShard[k] for k < cbN; dIdx[k] is the index in
+// phys of the k-th delivered item (set by the worker just before it calls the callback).
+// ---------------------------------------------------------------------------
+
+//@ ghost global cbN int
+//@ ghost global cbItem [int]ref
+//@ ghost global cbShard [int]int
+//@ ghost global dIdx [int]int
+//@ ghost global shardBase int
+//@ ghost global nShards int
+
+//@ callback-type nitro.VisitorCallback(fn ref, itm *Item, shard int) err error
+//@ modifies cbN, cbItem[cbN], cbShard[cbN]
+//@ ensures cbN == old(cbN) + 1 && cbItem[old(cbN)] == itm && cbShard[old(cbN)] == shard
+
+//@ func (*Nitro).NewIterator
+//@ props C09 C10 C08
+//@ requires m != nil && snap != nil && snap.db == m && wfStore(m) && snap.refCount < 2147483647
+//@ modifies snap.refCount, heap($alive), heap($brk)
+//@ ensures[nil-iff] result == nil <==> old(snap.refCount) == 0
+//@ ensures[ref] result != nil ==> snap.refCount == old(snap.refCount) + 1
+//@ ensures[no-ref] result == nil ==> snap.refCount == old(snap.refCount)
+//@ ensures[wf] result != nil ==> wfIter(result) && bufOK(result) && result.snap == snap && result.buf == result.iter.buf && result >= old(brk())
+//@ ensures[buf-fresh] result != nil ==> bufAbove(result, old(brk()))
+//@ ensures[fresh-iter] result != nil ==> result.iter.count == 0 && result.iter.smrInterval == 18446744073709551615 && !result.iter.deleted && result.count == 0 && result.refreshRate == 0
+//@ nopanic
+
+//@ func (*Iterator).Close
+//@ trusted drops the snapshot reference and the barrier session; collection side effects are specified under C06/C08
+//@ requires it != nil
+//@ modifies it.snap.refCount
+
+// The shard worker. For the shard value received from the work channel the callback is invoked on items of phys
+// at strictly increasing indices, each visible in the snapshot, with keys in [start pivot, end pivot), skipping no
+// visible item in between.
+//@ pure inLog(k int, base int) bool = base <= k && k < cbN
+
+//@ func (*Nitro).Visitor$2
+//@ props C10
+//@ use sl-globals
+//@ requires m != nil && snap != nil && snap.db == m && wfStore(m) && snap.refCount < 1000000000 && snap.refCount > 0
+//@ requires len(errors) == len(pivotItems) - 1
+//@ requires[pivots] (forall k int {pivotItems[k]} :: 0 <= k && k < len(pivotItems) && pivotItems[k] != nil ==> pivotItems[k] < 72057594037927936) && ptr(pivotItems) + 8 * len(pivotItems) <= brk()
+//@ recv k assume 0 <= k && k + 1 < len(pivotItems) && nShards - old(nShards) < 1000000000
+//@ modifies *
+//@ at-call type:nitro.VisitorCallback dIdx[cbN] := itr.iter.ix
+//@ at-call (*nitro.Nitro).NewIterator shardBase := cbN
+//@ at-call (*nitro.Nitro).NewIterator nShards := nShards + 1
+//@ use! kc-antisym kc-trans for loop2.inv-preserved[visible]
+//@ use! kc-antisym kc-trans for loop2.inv-preserved[no-gap]
+//@ loop 1 invariant[ctx] m != nil && snap != nil && snap.db == m && wfStore(m)
+//@ loop 1 invariant[refs] snap.refCount == old(snap.refCount) + (nShards - old(nShards)) && nShards >= old(nShards) && nShards - old(nShards) <= 1000000000
+//@ loop 1 invariant[sep] ptr(pivotItems) + 8 * len(pivotItems) <= old(brk()) && len(errors) == len(pivotItems) - 1
+//@ loop 1 invariant[pivots] (forall k int {pivotItems[k]} :: 0 <= k && k < len(pivotItems) && pivotItems[k] != nil ==> pivotItems[k] < 72057594037927936)
+//@ loop 2 invariant[ctx] m != nil && snap != nil && snap.db == m && 0 <= shard && shard + 1 < len(pivotItems) && startItem == pivotItems[shard] && endItem == pivotItems[shard + 1]
+//@ loop 2 invariant[iter] itr != nil && wfIter(itr) && positioned(itr.iter) && bufOK(itr) && itr.snap == snap
+//@ loop 2 invariant[sep] bufAbove(itr, old(brk())) && ptr(pivotItems) + 8 * len(pivotItems) <= old(brk()) && len(errors) == len(pivotItems) - 1
+//@ loop 2 invariant[steps] itr.iter.count - itr.iter.ix <= 0 && itr.iter.smrInterval == 18446744073709551615
+//@ loop 2 invariant[pivots] (forall k int {pivotItems[k]} :: 0 <= k && k < len(pivotItems) && pivotItems[k] != nil ==> pivotItems[k] < 72057594037927936)
+//@ loop 2 invariant[refs] snap.refCount == old(snap.refCount) + (nShards - old(nShards)) && nShards >= old(nShards) && nShards - old(nShards) <= 1000000000
+//@ loop 2 invariant[visible] itr.iter.ix == m.store.n || (visAt(itr, itr.iter.ix) && (startItem != nil ==> kc(itmAt(m, itr.iter.ix), startItem) >= 0))
+//@ loop 2 invariant[log] cbN >= shardBase && (forall k int {dIdx[k]} :: shardBase <= k && k < cbN ==> 0 <= dIdx[k] && dIdx[k] < itr.iter.ix && cbItem[k] == itmAt(m, dIdx[k]) && cbShard[k] == shard &&
+//@        visAt(itr, dIdx[k]) && (startItem != nil ==> kc(itmAt(m, dIdx[k]), startItem) >= 0) && (endItem != nil ==> kc(itmAt(m, dIdx[k]), endItem) < 0))
+//@ loop 2 invariant[ascending] forall k, k2 int {dIdx[k], dIdx[k2]} :: shardBase <= k && k < k2 && k2 < cbN ==> dIdx[k] < dIdx[k2]
+//@ loop 2 invariant[no-gap] forall j int {m.store.phys[j]} :: (cbN > shardBase ==> dIdx[cbN - 1] < j) && (cbN == shardBase ==> 0 <= j) && j < itr.iter.ix && visAt(itr, j) ==> (startItem != nil && kc(itmAt(m, j), startItem) < 0)
 //@ nopanic
